@@ -1,23 +1,11 @@
 (* C35 — proofs about the regenerated model C35/Gen.v against C35/Spec.v *)
 From Coq Require Import List NArith ZArith Bool Lia.
 Import ListNotations.
-From Cffi Require Import C35.PyStr C35.Model C35.Spec C35.Gen.
+From Cffi Require Import C35.PyStr C35.Model C35.Lemmas C35.Spec C35.Gen.
 Open Scope N_scope.
 
-(* ------------------------------------------------------------------ dictionaries *)
-Lemma str_eqb_eq a : forall b, str_eqb a b = true <-> a = b.
-Proof.
-  induction a as [|x a IH]; destruct b as [|y b]; cbn; split; try discriminate; auto.
-  - rewrite andb_true_iff, N.eqb_eq, IH. intros [-> ->]; auto.
-  - intros H; inversion H; subst. rewrite andb_true_iff, N.eqb_eq, IH. auto.
-Qed.
-
-Lemma str_eqb_refl a : str_eqb a a = true.
-Proof. apply str_eqb_eq; auto. Qed.
-
-Lemma str_eqb_neq a b : a <> b -> str_eqb a b = false.
-Proof. intros H. destruct (str_eqb a b) eqn:E; auto. apply str_eqb_eq in E. tauto. Qed.
-
+(* ------------------------------------------------------------------ dictionaries
+   (str_eqb_eq, str_eqb_refl, py_for_cons, ...: C35/Lemmas.v, independent of Gen.v) *)
 Lemma str_eq_dec (a b : str) : {a = b} + {a <> b}.
 Proof. destruct (str_eqb a b) eqn:E; [left; apply str_eqb_eq; auto | right; intros ->; rewrite str_eqb_refl in E; discriminate]. Qed.
 
@@ -125,16 +113,6 @@ Definition merge_body (cfg1 : cfg) (kv : str * cfgval) : res cfg :=
 
 Lemma merge_flags_unfold c1 c2 :
   merge_flags c1 c2 = bind (py_for merge_body (dict_items c2) c1) (fun c => Ok c).
-Proof. reflexivity. Qed.
-
-Lemma py_for_cons {S X} (body : S -> X -> res S) x l st :
-  py_for body (x :: l) st = bind (body st x) (py_for body l).
-Proof.
-  unfold py_for. cbn. destruct (body st x) as [s|e]; cbn; auto.
-  induction l; cbn; auto.
-Qed.
-
-Lemma py_for_nil {S X} (body : S -> X -> res S) st : py_for body [] st = Ok st.
 Proof. reflexivity. Qed.
 
 Lemma merge_body_lists c1 k l : all_lists c1 ->
